@@ -239,7 +239,7 @@ Section AuditTerm.
     induction fuel as [fuel IH] using lt_wf_ind. intros path n Hs Hb. unfold unsafe_bound in Hb.
     destruct fuel as [|fuel]; [lia|].
     cbn [unsafe_g]. destruct n as [h subs|sl id|sl l].
-    - destruct (ukind_of (h_kind h)); [apply nofuel_ok | apply fn_unsafe_nofuel |].
+    - destruct (ukind_of (h_kind h)); [apply nofuel_ok | apply own_unsafe_nofuel | apply fn_unsafe_nofuel |].
       destruct (on_path h path); [apply nofuel_ok|].
       apply bind_nofuel; [apply own_unsafe_nofuel|]. intros own _.
       apply bind_nofuel; [|intros; apply nofuel_ok].
@@ -249,7 +249,7 @@ Section AuditTerm.
       destruct (find_id_node _ _ _ F) as [ht [ts [-> Hid]]]. pose proof (find_id_sub _ _ _ F) as Hst.
       destruct fuel as [|fuel]; [lia|].
       cbn [unsafe_g].
-      destruct (ukind_of (h_kind ht)); [apply nofuel_ok | apply fn_unsafe_nofuel |].
+      destruct (ukind_of (h_kind ht)); [apply nofuel_ok | apply own_unsafe_nofuel | apply fn_unsafe_nofuel |].
       destruct (on_path ht path) eqn:OP; [apply nofuel_ok|].
       apply bind_nofuel; [apply own_unsafe_nofuel|]. intros own _.
       apply bind_nofuel; [|intros; apply nofuel_ok].
